@@ -73,6 +73,7 @@ type kvExec struct {
 	r      *kvRead
 	probes []chan struct{}
 	resets int
+	opsOnDB int
 }
 
 var kvLogOnce sync.Once
@@ -96,6 +97,7 @@ func (x *kvExec) open() {
 		panic("kv harness: cannot create database: " + err.Error())
 	}
 	x.d = d
+	x.opsOnDB = 0
 }
 
 func (x *kvExec) waitProbes() {
@@ -164,10 +166,12 @@ func (x *kvExec) shutdown() {
 // Reset starts a new history on an empty database.  Opening a database costs ~20 ms (the driver
 // asks goleveldb for a 128 MiB write buffer), so most resets empty the store through the raw
 // goleveldb handle instead (hook ldb.VerifRawLevelDB); every 64th reset, and any reset that
-// cannot wipe, closes the database, removes its directory and creates a fresh one.
+// cannot wipe, closes the database, removes its directory and creates a fresh one.  So does a
+// reset after more than 3000 ops on one database: wiping leaves the old versions in goleveldb's
+// 128 MiB memtable, and iterators slow down skipping them.
 func (x *kvExec) Reset() {
 	x.resets++
-	if x.d == nil || x.resets%64 == 0 {
+	if x.d == nil || x.resets%64 == 0 || x.opsOnDB > 3000 {
 		x.shutdown()
 		return
 	}
@@ -339,6 +343,7 @@ func (x *kvExec) Exec(a []string) string {
 		return "bad-op"
 	}
 	x.open()
+	x.opsOnDB++
 	switch a[0] {
 	case "begin":
 		if len(a) != 2 {
